@@ -267,6 +267,7 @@ fn fixtures(ctx: &Ctx, acc: &mut Acc) {
         ("generated:tax-year-boundaries", boundary.clone()),
         ("generated:dividends-only", "2024-05-01 DIVIDEND VWRL TOTAL 100 USD TAX 5\n2024-08-01 DIVIDEND VWRL TOTAL 30 TAX 0\n".to_string()),
         ("generated:split-only", "2024-05-01 SPLIT VWRL RATIO 2\n".to_string()),
+        ("generated:sterling-prices-foreign-fees-and-tax", "2024-01-15 BUY VOD 100 @ 150 GBP FEES 10 USD\n2024-03-01 DIVIDEND VOD TOTAL 40 TAX 4 EUR\n2024-06-20 SELL VOD 50 @ 180 FEES 5 USD\n2024-07-01 CAPRETURN VOD 50 TOTAL 20 FEES 1 EUR\n".to_string()),
         ("generated:day-30-and-later-event", "2023-01-10 BUY ACME 100 @ 10 FEES 1\n2024-02-01 SELL ACME 60 @ 12 FEES 0.5\n2024-03-02 BUY ACME 40 @ 11 FEES 1\n2025-03-01 CAPRETURN ACME 80 TOTAL 200\n2025-06-01 SELL ACME 10 @ 13\n".to_string()),
     ]
     .into_iter()
